@@ -25,15 +25,35 @@ FILE_RECV = ("self._file", "self.file")
 OPS = {"seek", "truncate", "write", "writelines", "flush", "close"}
 
 
-def _ends_with_newline(e: ast.expr) -> bool | None:
+def _resolve_text(prog, fi, e, depth=0):
+    """follow a local bound once, or a module-level string constant, to the expression that builds the text"""
+    if depth > 6 or not isinstance(e, ast.Name):
+        return e
+    defs = [st for st in walk_no_nested(fi.node) if isinstance(st, (ast.Assign, ast.AnnAssign)) and st.value is not None
+            and any(isinstance(t, ast.Name) and t.id == e.id for t in (st.targets if isinstance(st, ast.Assign) else [st.target]))]
+    if len(defs) == 1:
+        return _resolve_text(prog, fi, defs[0].value, depth + 1)
+    if not defs:
+        v = getattr(fi.module, "assigns", {}).get(e.id)
+        if isinstance(v, ast.Constant) and isinstance(v.value, str):
+            return v
+    return e
+
+
+def _ends_with_newline(e: ast.expr, prog=None, fi=None) -> bool | None:
+    if fi is not None:
+        e = _resolve_text(prog, fi, e)
     if isinstance(e, ast.Constant) and isinstance(e.value, str):
         return e.value.endswith("\n")
     if isinstance(e, ast.BinOp) and isinstance(e.op, ast.Add):
-        return _ends_with_newline(e.right)
+        return _ends_with_newline(e.right, prog, fi)
     if isinstance(e, ast.JoinedStr) and e.values:
         last = e.values[-1]
         if isinstance(last, ast.Constant):
             return str(last.value).endswith("\n")
+        if isinstance(last, ast.FormattedValue) and last.format_spec is None and last.conversion == -1:
+            r_ = _ends_with_newline(last.value, prog, fi)  # f"{header}{_LINE_END}" with a string constant
+            return bool(r_) if r_ is not None else False
         return False
     return None
 
@@ -141,7 +161,7 @@ def run(prog: Program, L: Ledger) -> None:
                         "crash between two writes of one row leaves a partial line", " ".join(names))
                 for i in writes:
                     call = seq[i][1]
-                    nl = _ends_with_newline(call.args[0]) if call.args else None
+                    nl = _ends_with_newline(call.args[0], prog, f) if call.args else None
                     L.check(nl is True, "W2", f"{c.name}.__call__:newline", f"{f.module.relpath}:{call.lineno}",
                             f"row `{norm(call)[:80]}` is not visibly newline-terminated", "rows run together / last line incomplete", norm(call)[:120])
             if kind == "trajectory":
@@ -195,7 +215,7 @@ def run(prog: Program, L: Ledger) -> None:
     L.check(len(w) == 1 and not any(nid in in_loop for nid in ops), "W2", "Logger.write_header:one-write", wh.where,
             f"header written by {len(w)} writes", "partial header on crash", "write_header")
     for o in w:
-        L.check(_ends_with_newline(o[1].args[0]) is True, "W2", "Logger.write_header:newline", wh.where, "header not newline-terminated", "first row glued to the header", norm(o[1])[:100])
+        L.check(_ends_with_newline(o[1].args[0], prog, wh) is True, "W2", "Logger.write_header:newline", wh.where, "header not newline-terminated", "first row glued to the header", norm(o[1])[:100])
 
 
 def _kind(prog: Program, c: ClassInfo, f: FuncInfo) -> str:
